@@ -283,7 +283,8 @@ EXTRA = {
            "(ties, signed zeros, denormals, infinities, NaN) through dsp's inputs, compared bit for bit.",
     "C02": "A further exhaustive job generates lets that bind a name of an enclosing scope again (lexical scope of nested blocks).",
     "C03": "A table of branch constructs outside Lang (numeric match with literal arms and a default arm, every arm stateless or "
-           "stateful, in dsp and in a stateful function, every arm taken at run time) runs under the same contract.",
+           "stateful, in dsp and in a stateful function, every arm taken at run time) runs under the same contract; numeric matches are "
+           "also driven with NaN, infinities, +-2^63, fractions and signed zero as scrutinee.",
     "C04": "TLC also enumerates sequences over three phrase lexicons (whole declarations as classes: modules re-exporting from "
            "each other, type aliases, functions and globals referring to each other). A panic is identified by its call site once "
            "its text is not pinned. The harness runner has a progress watchdog (a hang costs one request, not the batch).",
@@ -295,6 +296,16 @@ EXTRA = {
            "it for a consumer that takes only the newest waiting program; EditSwap.tla with Live = TRUE queues saved versions for "
            "the audio callback (one per invocation, also re-saves of an unchanged file), and a structural cover of its histories is "
            "replayed through the real FileRunner, compile service / compiler subprocess, swap channel and NativeAudioData::process.",
+    "C01": "Layer (e): tasks with non-commuting effects scheduled from global scope in every order of deadlines (several for one "
+           "sample, after a task with a later deadline): the order among tasks due at the same sample must be the same on both "
+           "runtimes. The builtin table includes a numeric match.",
+    "C02": "Job clo: a LangGen template in which dsp starts with a local and an open closure that assigns it; TLC fills the rest with "
+           "reads / assignments of the local and calls of the closure (left-to-right evaluation around a call that assigns).",
+    "C11": "Every configuration scheduled from global scope also runs with closures bound by let / letrec inside a function and, "
+           "when two definitions coincide, with one closure object scheduled twice (also at times equal only after truncation).",
+    "C14": "The form table includes tokens that span lines (string literals with line breaks at several indentation levels).",
+    "C16": "An annotation table (function kinds x where agreeing annotations are written x call forms with and without a "
+           "defaulted argument) is validated variant against variant by Lockstep.tla.",
     "C08": "Also: single deletions / insertions in sibling lists over a palette of subtree weights (stateful leaves of 1-3 words, "
            "stateless calls of 1-5 nodes, calls mixing both), the real plans validated by StateTreeTrace.tla.",
     "C15": "The corpus also holds a table of order-sensitive programs (clashing wildcard imports, multi-imports, 6-8 declarations "
@@ -302,16 +313,19 @@ EXTRA = {
     "C19": "Thread mixes include jobs that end in a panic of their own (macro-stage primitives on malformed input, an unsupported "
            "shape); Session.tla models the poisoning of the session lock by a panic of its holder.",
     "C20": "The universe includes the empty aggregates and a third level with empty aggregates in payload / element / field position.",
-    "C09": "The form table includes sibling and nested tuple patterns with placeholders.",
+    "C09": "The form table includes sibling and nested tuple patterns with placeholders and forms about the block structure of "
+           "quoted code (a let after a statement in a nested block, an if arm, a lambda body, shadowing an outer local).",
     "C10": "A table of templates outside Lang (letrec beside / around the hole, binders in nested blocks, if arms, tuples, binders "
            "mentioned by quoted code inside a splice) x seven use sites (global / local definitions, names imported from a module by "
            "wildcard or by name) is run with the binder named t and named u and validated by Lockstep.tla.",
     "C12": "Boundedness is also asked, on both runtimes, of a table of closure constructs that are steady on the pinned tree "
-           "(lambdas applied on the spot, local letrec, pipes, tasks; in unit-returning and value-returning functions).",
+           "(lambdas applied on the spot, local letrec, pipes, tasks; in unit-returning and value-returning functions). A second table asks "
+           "only 'runs to the end, nothing used after its release' of destructuring constructs over containers of boxed values.",
     "C13": "Three sub-lexicons (numbers and projection chains, comments and strings, operators) are explored deeper than the full alphabet.",
     "C14": "The form table includes comments at the start of a line before braces and commas.",
     "C16": "Transformations also include alpha-renaming of one rebinding binder (unshadow) and removing all indentation (flushleft).",
-    "C17": "Positions include a global initialiser directly after a module; forms include a member name used without any import.",
+    "C17": "Positions include a global initialiser directly after a module; forms include a member name used without any import. "
+           "The matrix is replayed under three naming schemes for the modules (plain, prefix-related, suffix-related names).",
     "C18": "Also: every parameter list of up to 2 (thorough: 3) parameters over {scalar, tuple, record} x direct call / call "
            "through a function handle / closure call.",
 }
